@@ -1345,6 +1345,10 @@ func main() {
 		files, _ := filepath.Glob("../corpus/C03/*.json")
 		sort.Strings(files)
 		for _, f := range files {
+			if strings.HasPrefix(filepath.Base(f), "f18-") {
+				// schedules of the interleaving harness (cmd/c03conc)
+				continue
+			}
 			var sp spec
 			c.ReadJSON(f, &sp)
 			sp.Obs, sp.Sig = "", ""
